@@ -42,6 +42,7 @@ class DSim:
         self.bclosed = set()
         self.write_errors = []
         self.wac = {}               # name -> outcome of a write issued after the local close
+        self.nwac = 0
         self.bconnect_d = None
         self.bproto = []
         self.lost_count = 0
@@ -227,14 +228,17 @@ class DSim:
                 d.addCallbacks(lambda p: (res.append(("ok", p)), self.bproto.append(p)), lambda fl: res.append(("err", fl.type.__name__)))
         elif k == "write_after_close":
             n = act[1]
-            try:
-                self.protos[n].transport.write(b"late")
-                self.wac[n] = "accepted"
-            except (core.Escape, core.Inconclusive, core._Abort, core.Counterexample):
-                raise
-            except Exception as e:
-                core.check_leak(e)
-                self.wac[n] = "raised " + type(e).__name__
+            outcomes = []
+            for data in (b"", b"late"):      # (an EMPTY write after close is a write after close, too)
+                try:
+                    self.protos[n].transport.write(data)
+                    outcomes.append("accepted")
+                except (core.Escape, core.Inconclusive, core._Abort, core.Counterexample):
+                    raise
+                except Exception as e:
+                    core.check_leak(e)
+                    outcomes.append("raised " + type(e).__name__)
+            self.wac[n] = "accepted" if "accepted" in outcomes else outcomes[-1]
         elif k == "close":
             n = act[1]
             self.closed.add(n)
@@ -295,7 +299,14 @@ class DSim:
                     self.do(("timer",))
                     out.append(("timer",))
             run(net)
-        if self.app:
+        if self.app and self.listen_late:
+            # the peer opens two subchannels and writes to both before the local application registers its listeners
+            for step in (("connect", "p0"), ("connect", "p1"), ("write", "p0"), ("write", "p1"), ("write", "p0"), ("listen", "p0"), ("listen", "p1"), ("write", "p1")):
+                if step in self.enabled():
+                    self.do(step)
+                    out.append(step)
+                run(net)
+        elif self.app:
             for step in (("connect", "p0"), ("listen", "p0"), ("write", "p0")):
                 if step in self.enabled():
                     self.do(step)
